@@ -272,7 +272,7 @@ def run(tier, seed):
         cases.q("unused")
         venv_cases.append((name, files, expect))
 
-    # (fixed 2bbe7de) a plugin whose inner modules are also imported by conftest.py files: the import scan meets them
+    # (fixed 2bbe7de, d747ded) a plugin whose inner modules are also imported by conftest.py files: the import scan meets them
     # by several routes in hash order - scanned several times over, every module of the chain is plugin code each time
     from . import c08
     for rep in range(4 if tier == "quick" else 12):
@@ -286,6 +286,14 @@ def run(tier, seed):
             cases.case(name, {"kind": "imports"})
             for k, (p, t) in enumerate(sorted(files.items())):
                 cases.text("f%d" % k, t); cases.raw("disk %s f%d" % (p, k))
+            if rng.random() < 0.35:
+                # some fixture modules are open in the editor (indexed, same text as on disk) before the scan starts:
+                # the scan meets them as import targets that are cached already - what THEY import is found all the same
+                keys = sorted(files)
+                early = rng.sample([m["path"] for m in mods], min(len(mods), rng.choice([1, 2])))
+                for pth in early:
+                    cases.op("analyze", pth, "f%d" % keys.index(pth))
+                r.stats["opened_before_scan"] = r.stats.get("opened_before_scan", 0) + len(early)
             cases.op("scan")
             cases.q("dump")
             # the order in which files are asked about is part of the history (memo tables): innermost first as
